@@ -96,6 +96,30 @@ CHECKS = {
         technique="contract-based VC generation from the real AST (loop invariants, ghost state, axiomatised GF(2)[x] theory over unbounded ints) discharged by z3; ground per-field obligations",
         engine="vk-E1-vcgen",
     ),
+    "C06": dict(
+        text="For symbolic received points y in C (PAM/BPSK: as their code expects) and symbolic noise variance > 0, constellation and labels read from the real demodulator: hard decision = a point at minimum Euclidean distance (for all y); soft output llr_k == kappa.(min over points labelled 1 - min over points labelled 0)/sigma^2 with kappa > 0 read off one evaluation and then PROVED for all y, sigma^2 (scalar, per-symbol); sign agrees with the hard decision; llr scales as 1/sigma^2 - for BPSK, QPSK, PSK <= 32, QAM <= 64, PAM <= 64, OQPSK, pi/4-QPSK (both tables); DPSK family on the decision variable z (helper contract + modular proof of forward). DPSK hard decisions (atan2) and 64-PSK/256-QAM identity clauses: bounded dense grids.",
+        note="Trusted: vk engine; the sound generalisation step in c06.py (nonlinear monomials abstracted by fresh reals, accepted only on unsat; refutations always come from the exact claim and are replayed natively). Floats as reals; float32 tables exact.",
+        design="7/C06",
+        technique=E2 + "; nearest-point / max-log queries linearised by cancelling |y|^2",
+    ),
+    "C15": dict(
+        text="Producers: every soft demodulator of C06, symbolic bits through the real modulator and soft demodulator: llr_k > 0 <=> bit_k == 0. Consumers in LLR mode (LLR / weighted / ensemble / hysteresis outside the dead zone / adaptive (polarity) / dynamic (polarity) / min-distance thresholders, repetition soft-bit decoder, llr_to_bits, sign_to_bin): out == [llr < 0] for all real llr != 0 per element; LLRThresholder soft output == sigmoid(-llr), strictly decreasing (sigmoid axiomatised). Pairing consumer(producer(bits)) == bits executed directly for QPSK/16-QAM x 9 consumers. Soft-input decoders as consumers are C10/C11.",
+        note="Known finding: FixedThresholder in LLR mode is inverted and pinned by a test. Interpretation notes (adaptive/dynamic thresholds depend on the batch mean; hysteresis dead zone) are stated as separate clauses in contracts/c15.py.",
+        design="7/C15",
+        technique=E2,
+    ),
+    "C10": dict(
+        text="Wagner decoder: for EVERY real input the output is a maximum-likelihood codeword of the SPC code (codebook enumerated, z3), k <= 5, batched and multi-block layouts, plus the noise-free clause. Min-sum LDPC: the check-node update equals alpha.prod sign.min|.| with the offset floored at zero per edge, output shape (B, edges), scale invariance, and noise-free decoding for symbolic message and magnitude (n <= 8, 1 and 3 iterations). BP index structures (cv_order, ext_ce, marg_ec, idx_mess_t) as ground obligations. Soft Reed-Muller noise-free clause symbolically for m <= 3. Sum-product BP (complex log2 / 2^x) and larger RM codes: bounded stand-ins (all codewords at magnitudes 0.5..50; exact posteriors on cycle-free graphs by enumeration).",
+        note="Trusted: vk engine incl. the scoped piecewise-linear rewriting in vk/ops_soft.py. Floats as reals (message clipping stated as precondition).",
+        design="7/C10",
+        technique=E2 + "; bounded native stand-in for sum-product BP",
+    ),
+    "C11": dict(
+        text="Polar encoder: forward(m) == u.F^(kron m) (bit-reversed when interleaving) with u[info] = message, u[frozen] = frozen value for ALL messages (GF(2) normal form), N <= 16 all k (+ sampled N = 32, 64), frozen 0/1, interleave on/off, user masks, batches; info set == k most reliable positions by an independent reading of rank_polar.csv; calculate_gm == Kronecker power (ground). SC decoder == an independent textbook successive-cancellation recursion for every real LLR vector (N <= 8, all k; min-sum piecewise linear, sum-product by congruence on uninterpreted tanh/atanh); noise-free decoding for symbolic messages and magnitudes (SC N <= 16, polar BP N <= 8). Larger N, early stopping, permutations: bounded.",
+        note="Precondition for SC == textbook: non-zero decision LLRs and no check-node message beyond the decoder's clip (default 1000). Floats as reals.",
+        design="7/C11",
+        technique=E2,
+    ),
 }
 
 NOT_YET = {}
